@@ -14,6 +14,15 @@ CHECKS = {
              'aliasing (canonical form of every pool variable), symmetry, at-most-once. Sampling, not proof; the right level because the '
              'property quantifies over term pairs x stacks of live generators, which only a driver that owns the generators can build.',
         note='Trusts the 150-line model unifier and the observer (reads Functor._name/_args); cyclic cases are skipped as unspecified; CPython 3.12 only.'),
+    'C03': dict(
+        category='fault_enumeration', design_ref='DESIGN.md section 4, C03',
+        technique='deterministic simulation with fault injection: per sampled world, exhaustive enumeration of abandonment points (close/drop/throw after every k-th answer) and of raise points in user predicates; registry + per-query restore monitor + re-run oracle',
+        text='For each seeded world (compiled program with cut, ;, ->, negation, once, call/N, findall, natives, dynamic facts, pre-bound query '
+             'variables) the fault space is enumerated completely: every k in 0..#answers x {close, drop, throw} and every native invocation x '
+             '{raise before first yield, raise on resumption}. After every fault: every engine Variable ever created (registry) is in its '
+             'pre-query state, every nested query restored on its exhaustion path, dropped generators are finalised at once, and the re-run '
+             'reproduces the fault-free answers. Worlds are sampled; fault placement per world is exhaustive.',
+        note='Self-referential oracles only (no reference Prolog), so pure-semantics defects cannot raise alarms here. CPython refcount finalisation assumed; worlds that do not compile, build cyclic terms or exceed the line budget are discarded and counted.'),
     'C18': dict(
         category='exploration', design_ref='DESIGN.md section 4, C18',
         technique='deterministic simulation of the environment: pool of fresh interpreters with seeded PYTHONHASHSEED, fake clock/pid and seeded compile histories; byte comparison',
@@ -36,7 +45,7 @@ NOT_APPLICABLE = [
 ]
 
 PENDING = {p: 'claimed in DESIGN.md; its check is not built yet at this commit (work in progress), so nothing is claimed for it here' for p in
-           ['C03', 'C04', 'C07', 'C08', 'C13', 'C14', 'C15', 'C17', 'C20']}   # property id -> reason, for claimed-in-design properties whose check is not built yet
+           ['C04', 'C07', 'C08', 'C13', 'C14', 'C15', 'C17', 'C20']}   # property id -> reason, for claimed-in-design properties whose check is not built yet
 
 
 def main():
